@@ -142,6 +142,10 @@ type Node struct {
 	OrderedBy string      `json:"ordered_by,omitempty"`
 	When      string      `json:"when,omitempty"`
 	Ext       string      `json:"ext,omitempty"` // argument of a prefixed extension statement placed in the node
+	// More lists further substatements verbatim (status, reference, if-feature,
+	// must, presence): statements the library files under Extra.  A feature named
+	// by an if-feature is declared by the renderer in the text that names it.
+	More []string `json:"more,omitempty"`
 	Uses      *Ref        `json:"uses,omitempty"`
 	Typedefs  []*Typedef  `json:"typedefs,omitempty"`
 	Groupings []*Grouping `json:"groupings,omitempty"`
